@@ -946,6 +946,8 @@ class Ex:
                 return VFunc(fi)
             if found and found[0] == "classvar":
                 return self.ev(found[1], Frame(None, found[2].module, cls=found[2]))
+            if name == "__new__":
+                return VLib("object.__new__", obj)      # cls.__new__(cls): a bare instance without fields (no user __new__ in the MRO)
             self.throw("AttributeError", name)
         if isinstance(obj, VLib):
             if obj.name.startswith("repo:"):
